@@ -10,6 +10,7 @@ import (
 	"sort"
 	"strconv"
 	"sync"
+	"time"
 )
 
 // A Rule examines one loaded configuration and records obligations.
@@ -46,6 +47,7 @@ func main() {
 	list := flag.Bool("list", false, "list properties and rules")
 	controls := flag.String("controls", "/verif/checker/controls", "positive-control module")
 	flag.Parse()
+	t0 := time.Now()
 
 	if *list {
 		var ids []string
@@ -116,6 +118,7 @@ func main() {
 	for _, id := range props {
 		spec := registry[id]
 		r := NewReport(id, *tier, seed)
+		r.Start = t0
 		for i, p := range progs {
 			r.cur = cfgs[i].Name
 			if errs[i] != nil {
